@@ -80,10 +80,8 @@ Section Hist.
   Definition do_update (l : leaf) (s : fstate) (y : series) (up : bool) : fstate * bool :=
     let s1 := mem_upd s y in
     if up then
-      match ffh s1 with
-      | Some h => (fit_state l (fmem s1) (Some h), true)
-      | None => (s1, false)
-      end
+      (* refit on everything remembered, with the horizon seen so far (if any) *)
+      (fit_state l (fmem s1) (ffh s1), true)
     else (s1, true).
 
   Definition forecast (l : leaf) (s : fstate) (h : list Z) : series :=
